@@ -237,6 +237,8 @@ namespace hv
             if (s.op == "thrower") { put(s.dst, wire<VThrower>(w, pi(a.at(0)), uid)); return; }
             if (s.op == "add2") { put(s.dst, wire<VAdd2>(w, pi(a.at(0)), pi(a.at(1)), uid)); return; }
             if (s.op == "add3") { put(s.dst, wire<VAdd3>(w, pi(a.at(0)), pi(a.at(1)), pi(a.at(2)), uid)); return; }
+            if (s.op == "sum2") { put(s.dst, wire<VSum2>(w, pi(a.at(0)), pi(a.at(1)))); return; }
+            if (s.op == "max2") { put(s.dst, wire<VMax2>(w, pi(a.at(0)), pi(a.at(1)))); return; }
             if (s.op == "acc") { put(s.dst, wire<VAcc>(w, pi(a.at(0)), uid)); return; }
             if (s.op == "count") { put(s.dst, wire<VCount>(w, pi(a.at(0)), uid)); return; }
             if (s.op == "sample") { put(s.dst, wire<VSample>(w, pi(a.at(0)), pi(a.at(1)), uid)); return; }
